@@ -36,3 +36,4 @@ def run(ctx, rep):
     rep.run(RH.rule_handle_protocol, ctx, rep, "H5")
     rep.run(RM.rule_return_ownership, ctx, rep, "H6")
     rep.run(RF.rule_memo_key_complete, ctx, rep, "H7", packages=("gtwrap/matlab_wrapper",), min_functions=50)
+    rep.run(RF.rule_locals_defined, ctx, rep, "U1", packages=("gtwrap/matlab_wrapper",), min_functions=3)
